@@ -873,10 +873,11 @@ def run(ctx: Ctx):
     r_split_values(ctx, model)
     r_order(ctx, model)
     r_scale(ctx, model)
-    from ..sites import conversions_drop_caches
-    ctx.rule("R-cache (conversions): every permanent conversion drops both interpolator caches unconditionally, so that an accessor used "
-             "before and after a conversion agrees with the converted data")
-    conversions_drop_caches(ctx, model, "C03", "R-cache")
+    from .C02 import cache_reset_for
+    ctx.rule("R-cache (conversions): after every permanent conversion that changed the stored numbers (also a unit-only one) both interpolator "
+             "caches are gone, so that an accessor used before and after a conversion agrees with the converted data (the conversions "
+             "interpreted on isotherms holding cached interpolators; shared with C02 R-reset)")
+    cache_reset_for(ctx, "C03", "R-cache")
     Engine(ctx.root)
     jobs = max(1, ctx.jobs)
     k = jobs if ctx.tier == "thorough" else min(jobs, 4)
